@@ -156,52 +156,45 @@ theorem invC_frame {s s' : State} {t : Tid} (r0 : Ref) (i0 : Inst) (hA : InvA s)
       · rw [hheap r er] at hv; exact c.held_fresh r i hh hv
     · exact c.ret_val
     · exact c.ret_objs
+    · exact c.started_first
 
-theorem closeProgress_frame {s s' : State} {th : Thread}
-    (hD3 : ∀ r, r < s'.nHeap → Entry.inMapOf s' r → r < s.nHeap ∧ Entry.inMapOf s r)
-    (h : CloseProgress s th) : CloseProgress s' th := by
-  unfold CloseProgress at h ⊢
-  refine ⟨h.1, ?_⟩
-  have h2 := h.2
-  cases hpc : th.pc <;> rw [hpc] at h2 <;> (try simp only at h2 ⊢)
+theorem closeRun_frame {s s' : State} {th : Thread}
+    (hD3 : s.closed = true → ∀ r, r < s'.nHeap → Entry.inMapOf s' r → r < s.nHeap ∧ Entry.inMapOf s r)
+    (hD5 : s.closed = true → s'.closed = true)
+    (h : CloseRun s th) : CloseRun s' th := by
+  unfold CloseRun at h ⊢
+  cases hpc : th.pc <;> rw [hpc] at h <;> (try simp only at h ⊢)
   case done res =>
-    cases res <;> (try simp only at h2 ⊢)
+    cases res <;> (try simp only at h ⊢)
     case errOnly e =>
-      cases e <;> (try simp only at h2 ⊢)
-      case none => intro r hr hm; exact h2 r (hD3 r hr hm).1 (hD3 r hr hm).2
-      all_goals first | exact h2 | exact h2.elim
-    all_goals first | exact h2 | exact h2.elim
-  case rmWaitLoad r => intro r' hr hm; exact h2 r' (hD3 r' hr hm).1 (hD3 r' hr hm).2
-  case rmSetClosing r => intro r' hr hm; exact h2 r' (hD3 r' hr hm).1 (hD3 r' hr hm).2
-  case rmClosingWait r g => intro r' hr hm; exact h2 r' (hD3 r' hr hm).1 (hD3 r' hr hm).2
-  case inClose r i => intro r' hr hm; exact h2 r' (hD3 r' hr hm).1 (hD3 r' hr hm).2
-  all_goals first | exact h2 | exact h2.elim
+      cases e <;> (try simp only at h ⊢)
+      case none => exact ⟨hD5 h.1, fun r hr hm => h.2 r (hD3 h.1 r hr hm).1 (hD3 h.1 r hr hm).2⟩
+  case rmWaitLoad r => exact ⟨hD5 h.1, fun r' hr hm => h.2 r' (hD3 h.1 r' hr hm).1 (hD3 h.1 r' hr hm).2⟩
+  case rmSetClosing r => exact ⟨hD5 h.1, fun r' hr hm => h.2 r' (hD3 h.1 r' hr hm).1 (hD3 h.1 r' hr hm).2⟩
+  case rmClosingWait r g => exact ⟨hD5 h.1, fun r' hr hm => h.2 r' (hD3 h.1 r' hr hm).1 (hD3 h.1 r' hr hm).2⟩
+  case inClose r i => exact ⟨hD5 h.1, fun r' hr hm => h.2 r' (hD3 h.1 r' hr hm).1 (hD3 h.1 r' hr hm).2⟩
+  all_goals first | exact h | exact h.elim | trivial
 
-theorem invD_frame {s s' : State} {t : Tid} (hI : InvD s) (ht : t < s.nThr)
+theorem invD_frame {s s' : State} {t : Tid} (hI : InvD s)
     (hnThr : s'.nThr = s.nThr)
     (hthr : ∀ t', t' ≠ t → s'.thr t' = s.thr t')
-    (hD1 : s'.closed = true → s.closed = false → CloseProgress s' (s'.thr t))
-    (hD2 : s.closed = true → CloseProgress s (s.thr t) → CloseProgress s' (s'.thr t))
+    (hTD : (s'.thr t).op = .close → CloseRun s' (s'.thr t))
     (hD3 : s.closed = true → ∀ r, r < s'.nHeap → Entry.inMapOf s' r → r < s.nHeap ∧ Entry.inMapOf s r)
     (hD4 : s'.closeDone = true → s.closeDone = true ∨
       (s'.closed = true ∧ ∀ r, r < s'.nHeap → ¬ Entry.inMapOf s' r))
     (hD5 : s.closed = true → s'.closed = true) : InvD s' := by
   constructor
-  · intro hc
-    cases hcs : s.closed with
-    | false => exact ⟨t, hnThr ▸ ht, hD1 hc hcs⟩
-    | true =>
-      obtain ⟨tc, htc, hp⟩ := hI.progress hcs
-      refine ⟨tc, hnThr ▸ htc, ?_⟩
-      by_cases e : tc = t
-      · subst e; exact hD2 hcs hp
-      · rw [hthr tc e]; exact closeProgress_frame (hD3 hcs) hp
+  · intro t' ht' hop
+    by_cases e : t' = t
+    · subst e; exact hTD hop
+    · rw [hthr t' e] at hop ⊢
+      exact closeRun_frame hD3 hD5 (hI.thr t' (hnThr ▸ ht') hop)
   · intro hcd
     rcases hD4 hcd with h | h
     · have := hI.close_done h
       refine ⟨hD5 this.1, fun r hr hm => ?_⟩
-      have := hD3 this.1 r hr hm
-      exact (hI.close_done h).2 r this.1 this.2
+      have h3 := hD3 this.1 r hr hm
+      exact this.2 r h3.1 h3.2
     · exact h
 
 end AnySync.OCache
